@@ -17,6 +17,7 @@ import Hy.Drv.Brutal
 import Hy.Drv.Gecko
 import Hy.Drv.PortUnion
 import Hy.Drv.Hop
+import Hy.Drv.HopAddr
 import Hy.Drv.UdpAcl
 import Hy.Drv.UdpSession
 import Hy.Drv.Ring
@@ -64,6 +65,7 @@ def main (args : List String) : IO UInt32 := do
   | ["gecko"] => loopState stdin stdout Gecko.step Gecko.init; return 0
   | ["portunion"] => loopPure stdin stdout PortUnion.step; return 0
   | ["hop"] => loopState stdin stdout Hop.step Hop.init; return 0
+  | ["hopaddr"] => loopPure stdin stdout HopAddr.step; return 0
   | ["udpacl"] => loopState stdin stdout UdpAcl.step UdpAcl.init; return 0
   | ["udpsession"] => loopState stdin stdout UdpSession.step UdpSession.init; return 0
   | ["ring"] => loopState stdin stdout Ring.ringStep Ring.ringInit; return 0
